@@ -32,8 +32,9 @@ import XjsModel.Props.TableObligations
   member access does not start with a digit). The writer invariant `LP.WInv` carries a FOLLOW predicate (what may stand
   behind the text written so far without being drawn into its last token) and the fact that a sign which the predicate
   rejects is the last byte written, which is what `separateSigns` tests.
-  Not proved: that positions / after-newline flags of the re-lexed tokens do not matter to the parser (the two
-  theorems meet at the token keys); pretty mode (incl. `WithSemi(false)`), trees outside `wf`. Those are decided by the
+  The re-lexed tokens carry no line break and no comment (`compact_text_lexes_to_quiet_tokens`).
+  Not proved: that the positions of the re-lexed tokens do not matter to the parser, and the round trip of the tree whose
+  after-newline flags are cleared (the print → lex and the print → parse theorems meet at the token keys); pretty mode (incl. `WithSemi(false)`), trees outside `wf`. Those are decided by the
   correspondence run (PRINTT stream: programmatic trees, exhaustive parent/child pairs) and the model-free re-parse oracle.
   Known findings there: stmt-start-object-or-function, dangling-else, printer-paren-function-indent, trim-in-literal.
 -/
@@ -71,6 +72,13 @@ theorem compact_text_lexes_to_printed_tokens (ccfg : CompCfg) (hc : ccfg.pretty 
     (hterm : prog.term = true) (hs : LP.saneB prog) :
     (lexAll (compile ccfg prog.tree).code).map LP.keyOf = prog.toks.map LP.keyOf ++ [(.eof, [])] :=
   LP.compact_text_lexes ccfg hc prog hw hterm hs
+
+/-- … and everything else the parser can see of the re-lexed tokens, positions apart: none of them stands after a line
+    break, none carries a comment (`keyOf4` = type, literal, after-newline flag, leading comments) -/
+theorem compact_text_lexes_to_quiet_tokens (ccfg : CompCfg) (hc : ccfg.pretty = false) (prog : SSList) (hw : prog.wf = true)
+    (hterm : prog.term = true) (hs : LP.saneB prog) :
+    (lexAll (compile ccfg prog.tree).code).map LP.keyOf4 = prog.toks.map LP.quietKey ++ [LP.eofKey] :=
+  LP.compact_text_lexes4 ccfg hc prog hw hterm hs
 
 /-- PRINT → LEX for one expression in any context: whatever was written before (`WInv`: compact mode, nothing pending,
     the text so far lexes to `ks` in front of anything the follow predicate `fc` admits, and `fc` admits everything an
@@ -174,6 +182,7 @@ example : (compile {} prog2.tree).code = [108, 101, 116, 32, 120, 61, 49, 59, 12
 end Xjs.C03
 
 #print axioms Xjs.C03.compact_text_lexes_to_printed_tokens
+#print axioms Xjs.C03.compact_text_lexes_to_quiet_tokens
 #print axioms Xjs.C03.expression_text_lexes
 #print axioms Xjs.C03.separate_signs_is_enough
 #print axioms Xjs.C03.literal_sanity_conditions
